@@ -164,9 +164,12 @@ class Interp:
         if getattr(self.prog, "_bound_models", None) == key:
             return
         # index patterns by a literal prefix/suffix to avoid trying every regex on every instance
+        from .models import EXCLUDE
         for inst in self.prog.insts.values():
             inst.model = None
             nm = inst.name
+            if any(glob_match(x, nm) for x in EXCLUDE):
+                continue
             for pat, fn in self.models:
                 if "*" not in pat:
                     if pat == nm:
@@ -1940,7 +1943,10 @@ class Interp:
         """run until the stack is back to `depth` frames; returns the resulting states"""
         out = []
         work = [st]
+        cap = int(os.environ.get("MIRSYM_MAXLEAVES", "0")) if depth == 0 else 0
         while work:
+            if cap and len(out) + len(self.leaves) >= cap:
+                break       # debugging aid only: never set by a registered check
             s = work.pop()
             while True:
                 if s.status is not None:
